@@ -127,6 +127,27 @@ fn read_back(items: &[(String, String)]) -> Vec<[Value; 5]> {
 }
 
 fn process(strings: &[String], out: &mut dyn Write) {
+    let threads = std::env::var("VERIF_THREADS").ok().and_then(|s| s.parse().ok()).unwrap_or(8usize).max(1);
+    let per = strings.len().div_ceil(threads).max(1);
+    let parts: Vec<Vec<u8>> = std::thread::scope(|s| {
+        let handles: Vec<_> = strings
+            .chunks(per)
+            .map(|slice| {
+                s.spawn(move || {
+                    let mut buf: Vec<u8> = Vec::new();
+                    process_slice(slice, &mut buf);
+                    buf
+                })
+            })
+            .collect();
+        handles.into_iter().map(|h| h.join().expect("worker thread")).collect()
+    });
+    for p in parts {
+        out.write_all(&p).unwrap();
+    }
+}
+
+fn process_slice(strings: &[String], out: &mut dyn Write) {
     const BATCH: usize = 200;
     for chunk in strings.chunks(BATCH) {
         let quoted: Vec<Result<String, String>> =
